@@ -1,6 +1,6 @@
 """C28 — compiled modules are deterministic and survive serialization.
 For every policy document built from the programs of PolicyLang.tla that the compiler accepts:
-compile twice => equal Module; encode/decode through CBOR (serde, as the policy-compiler CLI writes
+compile six times => equal Modules; encode/decode through CBOR (serde, as the policy-compiler CLI writes
 it) and rkyv => equal Module and equal Machine; the machine loaded from each decoded form gives the
 outcome the spec predicted for every function and argument tuple (DESIGN §5 C28)."""
 import verif
@@ -10,7 +10,7 @@ META = {
     "level": "exploration",
     "engine": "vm",
     "technique": "TLA+ spec PolicyLang generates policy documents and predicts every function's outcome; the engine compiles each document twice, round-trips the Module through its serialized forms, loads Machines and re-runs every function against the spec's prediction",
-    "text": "Documents of 50 generated functions (typed grammar: depth 1 exhaustive, statement forms, seeded simulation to depth 3, effects mode with foreign calls and panics) plus the prelude (enum/struct definitions, helper functions). Per document: Module(compile #1) == Module(compile #2); for CBOR via ciborium (the CLI's format) and rkyv: decode(encode(m)) == m and Machine::from_module(decoded) == Machine::from_module(m); then every function is executed on the original and on each decoded machine and exit reason, value and foreign-call log must equal the spec's Eval outcome. postcard is attempted and only reported (the internally tagged ModuleData enum is not postcard-decodable by construction).",
+    "text": "Documents of 50 generated functions (typed grammar: depth 1 exhaustive, statement forms, seeded simulation to depth 3, effects mode with foreign calls and panics) plus the prelude (enum/struct definitions, helper functions). Per document: Module(compile #1) == Module(compile #k) for k = 2..6 (hash-order nondeterminism is probabilistic); for CBOR via ciborium (the CLI's format) and rkyv: decode(encode(m)) == m and Machine::from_module(decoded) == Machine::from_module(m); then every function is executed on the original and on each decoded machine and exit reason, value and foreign-call log must equal the spec's Eval outcome. postcard is attempted and only reported (the internally tagged ModuleData enum is not postcard-decodable by construction).",
     "note": "Exploration over generated policies (pure functions; actions/commands with facts are covered by C29/C30's engine). rule: equality of modules, machines and outcomes. Trusted: PartialEq of Module/Machine is structural (derived).",
 }
 
